@@ -155,6 +155,7 @@ def mentions (k : Nat) : Op → Bool
   | .clear p => p.root == k
   | .extend p q => p.root == k || q.root == k
   | .setSub p _ => p.root == k
+  | .setCs p q _ => p.root == k || q.root == k
   | .clone j q => j == k || q.root == k
   | .copy j q => j == k || q.root == k
   | .drop j => j == k
@@ -445,6 +446,13 @@ theorem string_key_on_array_is_index (g : Bool) (src : Option Loc) (σ : State) 
   have hn : ¬ (myatoi k < 0) := by omega
   simp only [resolveMut, normStep, h, hn, if_false]
 
+/-- `a["-1"]` on an ARRAY (commit 095ba92): a key that converts to a negative int takes no step at all — the call reports
+an error and returns the Var itself; nothing before the block is touched -/
+theorem string_key_negative_on_array_is_self (g : Bool) (src : Option Loc) (σ : State) (l : Loc) (id : Nat) (k : Bytes) (rest : List Step)
+    (h : readLoc σ l = .ok (.arr id)) (hk : myatoi k < 0) :
+    resolveMut g src σ l (.key k :: rest) = resolveMut g src σ l rest := by
+  simp only [resolveMut, normStep, h, hk, if_true]
+
 /-- `removeAt(i, n)` (commits 17b939b, 0854fc0): for EVERY `int` pair outside `0 <= i < len, 0 < n <= len - i` — `n = INT_MAX`
 included; the model's test is in unbounded integers — the call changes nothing -/
 theorem removeAt_out_of_range_noop (σ : State) (t : Loc) (sl : Option Loc) (p : Path) (i n : Int) (id : Nat) (b : Block)
@@ -497,6 +505,54 @@ theorem assign_suffix_spec (σ σ' : State) (t : Loc) (sl : Option Loc) (p : Pat
   | flt _ => cases h
   | arr _ => cases h
   | obj _ => cases h
+
+/-- **assign_cstr_spec** — `p = *q + off` (commit 7dd07aa), e.g. `v = *v[0]`, `v = *v["k"]`, `a[1] = *a[1][0]`: an executed
+`const char*` assignment whose text lives in a string Var `q` — possibly an element or property of the array or object
+that `p` holds and that the assignment releases — leaves `p` readable, denoting exactly that text; the invariant holds -/
+theorem assign_cstr_spec (σ σ' : State) (t : Loc) (sl : Option Loc) (p q : Path) (off : Nat) (inv : Inv σ []) (hl : ValidLoc σ t)
+    (h : opBody true σ t sl (.setCs p q off) = .ok σ') :
+    ∃ s, (srcVal σ sl = .ok (.str s) ∨ srcVal σ sl = .ok (.sstr s)) ∧ off ≤ s.length ∧
+      ∃ v', readLoc σ' t = .ok v' ∧ content 1 σ'.heap v' = some (.str (s.drop off)) ∧ Inv σ' [] := by
+  have hms : ∀ x : Bytes, content 1 [] (mkString x) = some (.str x) := by
+    intro x; unfold mkString; split <;> rfl
+  simp only [opBody, assignCs] at h
+  cases hsv : srcVal σ sl with
+  | error e => rw [hsv] at h; cases h
+  | ok src =>
+    rw [hsv] at h
+    have fin : ∀ s : Bytes, (src = .str s ∨ src = .sstr s) → off ≤ s.length → assignString σ t (s.drop off) = .ok σ' →
+        ∃ s, ((Except.ok src : Except Err V) = Except.ok (V.str s) ∨ (Except.ok src : Except Err V) = Except.ok (V.sstr s)) ∧ off ≤ s.length ∧
+        ∃ v', readLoc σ' t = .ok v' ∧ content 1 σ'.heap v' = some (.str (s.drop off)) ∧ Inv σ' [] := by
+      intro s hs hoff ha
+      obtain ⟨v', h1, _, h3, h4⟩ := assign_lit_spec σ σ' t sl p (.str (s.drop off)) inv hl ha
+      refine ⟨s, ?_, hoff, v', h1, by rw [h3]; exact hms _, h4⟩
+      rcases hs with rfl | rfl
+      · exact Or.inl rfl
+      · exact Or.inr rfl
+    cases src with
+    | str s =>
+      simp only [] at h
+      split at h
+      · rename_i hoff; exact fin s (Or.inl rfl) hoff h
+      · cases h
+    | sstr s =>
+      simp only [] at h
+      split at h
+      · rename_i hoff; exact fin s (Or.inr rfl) hoff h
+      · cases h
+    | none => cases h
+    | null => cases h
+    | bool _ => cases h
+    | int _ => cases h
+    | num _ => cases h
+    | flt _ => cases h
+    | arr _ => cases h
+    | obj _ => cases h
+
+/-- the typed overload `v == 16777216.0f` for `v = 16777217` (commit cda9080): the driver evaluates every typed numeric
+comparison as `numOf v == some d` (exact values), and these two differ -/
+theorem int_vs_float_literal_exact : numOf (mkInt 16777217) ≠ numOf (mkFloat (Dy.ofInt 16777216)) := by decide
+
 
 /-! ## clone_deep: clone() yields a deep copy that no later mutation of the original can change -/
 
